@@ -8,7 +8,7 @@ use num_enum::{FromPrimitive, IntoPrimitive};
 use proptest::prelude::*;
 
 use crate::{
-    errors::{ensure, Result},
+    errors::{ensure, format_err, Result},
     line_writer::LineBreak,
     normalize_lines::normalize_lines,
     packet::{PacketHeader, PacketTrait},
@@ -533,13 +533,17 @@ pub(crate) struct LiteralDataFixedGenerator<R: io::Read> {
 
 impl<R: io::Read> LiteralDataFixedGenerator<R> {
     pub(crate) fn new(header: LiteralDataHeader, source: R, source_len: u32) -> Result<Self> {
-        let len = source_len + u32::try_from(header.write_len())?;
+        let len = source_len
+            .checked_add(u32::try_from(header.write_len())?)
+            .ok_or_else(|| format_err!("literal data too large for a fixed length packet"))?;
         let packet_header = PacketHeader::new_fixed(Tag::LiteralData, len);
         let mut serialized_header = Vec::new();
         packet_header.to_writer(&mut serialized_header)?;
         header.to_writer(&mut serialized_header)?;
 
-        let total_len = source_len + u32::try_from(serialized_header.len())?;
+        let total_len = source_len
+            .checked_add(u32::try_from(serialized_header.len())?)
+            .ok_or_else(|| format_err!("literal data too large for a fixed length packet"))?;
 
         Ok(Self {
             header: serialized_header,
